@@ -271,6 +271,13 @@ func TestVFC05DHCPPrograms(t *testing.T) {
 			mem[id] = true
 		}
 		v4.leasesLock.Unlock()
+		if v6, isV6 := s.srv6.(*v6Server); isV6 {
+			v6.leasesLock.Lock()
+			for _, l := range v6.leases {
+				mem[fmt.Sprintf("%s|%s|%t", l.HWAddr, l.IP, l.IsStatic)] = true
+			}
+			v6.leasesLock.Unlock()
+		}
 		chMu.Lock()
 		nchanges := changes
 		chMu.Unlock()
@@ -330,24 +337,28 @@ func TestVFC05DHCPPrograms(t *testing.T) {
 		return
 	}
 
-	ips := []string{"192.168.10.10", "192.168.10.11", "192.168.10.12", "192.168.10.13", "192.168.10.17", "192.168.10.40", "192.168.10.41", "192.168.10.1"}
+	// the IPv6 addresses reach the DHCPv6 half of the server (static leases,
+	// lookups by address)
+	ips := []string{"192.168.10.10", "192.168.10.11", "192.168.10.12", "192.168.10.13", "192.168.10.17", "192.168.10.40", "192.168.10.41", "192.168.10.1", "2001:db8:10::a", "2001:db8:10::b"}
 	hosts := []string{"alpha", "beta", "gamma", "Alpha", "192-168-10-10", ""}
 	rapid.Check(t, func(t *rapid.T) {
 		p := &vfC05DProgram{}
-		step := func(ops []string, label string) vfC05DStep {
+		stepOver := func(ops []string, label string, addrs []string) vfC05DStep {
 			return vfC05DStep{
 				Op:   rapid.SampledFrom(ops).Draw(t, label+"_op"),
 				MAC:  vfC05DMac(rapid.IntRange(1, 6).Draw(t, label+"_mac")),
-				IP:   rapid.SampledFrom(ips).Draw(t, label+"_ip"),
+				IP:   rapid.SampledFrom(addrs).Draw(t, label+"_ip"),
 				Host: rapid.SampledFrom(hosts).Draw(t, label+"_host"),
 			}
 		}
+		step := func(ops []string, label string) vfC05DStep { return stepOver(ops, label, ips) }
 		nc := rapid.IntRange(1, 4).Draw(t, "n_clients")
 		for g := 0; g < nc; g++ {
 			n := rapid.IntRange(2, 10).Draw(t, fmt.Sprintf("c%d_len", g))
 			var steps []vfC05DStep
 			for i := 0; i < n; i++ {
-				steps = append(steps, step([]string{"join", "join", "discover", "request", "decline", "release"}, fmt.Sprintf("c%d_%d", g, i)))
+				// DHCPv4 messages carry IPv4 addresses only
+				steps = append(steps, stepOver([]string{"join", "join", "discover", "request", "decline", "release"}, fmt.Sprintf("c%d_%d", g, i), ips[:8]))
 			}
 			p.Clients = append(p.Clients, steps)
 		}
